@@ -9,6 +9,29 @@ use samlang_errors::ErrorSet;
 use samlang_heap::{ModuleReference, PStr};
 use std::collections::{HashMap, HashSet};
 
+/// Verification hook (only with `--cfg samlang_verif`): the calls made on the scope stack.
+#[cfg(samlang_verif)]
+pub(crate) mod verif {
+  use samlang_ast::Location;
+  use samlang_heap::PStr;
+  use std::sync::Mutex;
+
+  #[derive(Debug, Clone, Copy)]
+  pub enum Event {
+    Push,
+    Pop,
+    /// name, for_type
+    Get(PStr, bool),
+    Insert(PStr, Location),
+  }
+
+  pub(crate) static LOG: Mutex<Vec<Event>> = Mutex::new(Vec::new());
+
+  pub(super) fn log(e: Event) {
+    LOG.lock().unwrap().push(e);
+  }
+}
+
 struct SsaLocalStackedContext {
   local_values_stack: Vec<HashMap<PStr, Location>>,
   captured_values_stack: Vec<HashMap<PStr, Location>>,
@@ -23,6 +46,8 @@ impl SsaLocalStackedContext {
   }
 
   fn get(&mut self, name: &PStr, for_type: bool) -> Option<&Location> {
+    #[cfg(samlang_verif)]
+    verif::log(verif::Event::Get(*name, for_type));
     let closest_stack_value = self.local_values_stack.last().unwrap().get(name);
     if closest_stack_value.is_some() {
       return closest_stack_value;
@@ -42,6 +67,8 @@ impl SsaLocalStackedContext {
   }
 
   fn insert(&mut self, name: PStr, value: Location) -> Option<Location> {
+    #[cfg(samlang_verif)]
+    verif::log(verif::Event::Insert(name, value));
     let previous = self.local_values_stack.iter().find_map(|m| m.get(&name)).cloned();
     let stack = &mut self.local_values_stack;
     let last_index = stack.len() - 1;
@@ -50,11 +77,15 @@ impl SsaLocalStackedContext {
   }
 
   fn push_scope(&mut self) {
+    #[cfg(samlang_verif)]
+    verif::log(verif::Event::Push);
     self.local_values_stack.push(HashMap::new());
     self.captured_values_stack.push(HashMap::new());
   }
 
   fn pop_scope(&mut self) -> (HashMap<PStr, Location>, HashMap<PStr, Location>) {
+    #[cfg(samlang_verif)]
+    verif::log(verif::Event::Pop);
     (self.local_values_stack.pop().unwrap(), self.captured_values_stack.pop().unwrap())
   }
 }
